@@ -212,9 +212,10 @@ Fixpoint q_insert (e : unb) (q : list unb) : list unb :=
 (* MsgNonVotingUndelegate{sender u, validator v, amount, recipient rcp}; rcp < 0 = malformed
    recipient string. Staking contract used: MsgUndelegate is refused when there is no
    delegation, when amt exceeds its balance, or when the (module, validator) pair already has
-   max_entries unbonding entries; otherwise the delegation balance falls by exactly amt (the
-   delegation disappears at 0) and the completion time and the amount really unbonded are
-   returned; the queue records the latter. *)
+   max_entries unbonding entries; otherwise it returns the completion time and the amount it
+   really unbonds (o_ret, the requested amount unless the validator's exchange rate is not 1),
+   the delegation balance falls by that amount (the delegation disappears at 0) and the queue
+   records it. *)
 Definition undelegate (s : state) (o : oracle) (u v amt dn rcp : Z) : res state :=
   if negb (dn =? FEE) then Err E_INVALID_COINS else
   if amt <=? 0 then Err E_INVALID_COINS else
@@ -231,8 +232,11 @@ Definition undelegate (s : state) (o : oracle) (u v amt dn rcp : Z) : res state 
     if b <? amt then Err E_STAKING else
     if o_max o <=? cent c1 then Err E_MAX_ENTRIES else
     if rcp <? 0 then Err E_ADDRESS else
+    (* staking contract: it unbonds between 0 and the requested amount; otherwise the model
+       gives up (a class the implementation never returns here) *)
+    if (o_ret o <? 0) || (amt <? o_ret o) then Err E_OTHER else
     let c2 := mkCell (cT c1 - cost) (upd (csh c1) u (csh c1 u - cost)) (cmodsh c1)
-                     (if b - amt =? 0 then None else Some (b - amt))
+                     (if b - o_ret o =? 0 then None else Some (b - o_ret o))
                      (csd c1) (cent c1) (cS c1) (cM c1) (cchk c1) in
     Ok (mkState (upd (cells s) v c2) ub1 (add_leak s o)
                 (q_insert (mkUnb (next_id s) rcp (o_ct o) (o_ret o)) (queue s)) (next_id s + 1))
